@@ -50,11 +50,11 @@ func NewCoalesce(pool *model.VectorPool, operators ...model.VectorOperator) mode
 	}
 }
 
-// NewShardCoalesce merges the shards of one expression. In addition to
-// NewCoalesce it fails a step at which two series with the same labels have a
-// sample, as the Prometheus engine does: the operators below may have dropped
-// the label that told them apart (rate() drops the metric name), which the
-// shards cannot see on their own.
+// NewShardCoalesce merges the shards of a function over a range vector. In
+// addition to NewCoalesce it fails the query when two series with the same
+// labels produce samples, as the Prometheus engine does: the function may have
+// dropped the label that told them apart (rate() drops the metric name), which
+// the shards cannot see on their own.
 func NewShardCoalesce(pool *model.VectorPool, operators ...model.VectorOperator) model.VectorOperator {
 	return &coalesceOperator{
 		pool:            pool,
@@ -215,7 +215,7 @@ func (c *coalesceOperator) loadSeries(ctx context.Context) error {
 	}
 
 	if c.checkDuplicates {
-		c.duplicates = model.NewDuplicateLabelCheck(c.series)
+		c.duplicates = model.NewDuplicateLabelCheckAcrossSteps(c.series)
 	}
 	c.pool.SetStepSize(len(c.series))
 	return nil
